@@ -888,9 +888,9 @@ Proof.
 Qed.
 
 (* ------------------------------------------------------------------ *)
-(* witnesses: the code before the fix ([step_prefix]) violates "every   *)
-(* batch is non-empty" and "underfilled only after maxWait" through a   *)
-(* stale timer                                                         *)
+(* witnesses: the code before the fix ([step_prefix]) delivers an      *)
+(* empty batch, or an underfilled batch younger than maxWait, through  *)
+(* a stale timer                                                       *)
 (* ------------------------------------------------------------------ *)
 Definition run_from (mw : Z) (m : fmode) (calls : list nat) (nctx : nat) (ls : list lab) : st :=
   match run qstep (init mw m calls nctx) ls with Some s => s | None => init mw m calls nctx end.
